@@ -213,4 +213,6 @@ def run(ctx):
     # ---- R3: the difficulty half — the gradual next() and the one-shot calculation feed each skill under the same conditions (shared with C02-R8)
     from props import C02
     C02.r8_same_feeding(ctx, F, rule='C03-R3')
+    # ---- R4: ... and prepare it with the same numbers (shared with C02-R9)
+    C02.r9_replicated_setup(ctx, F, rule='C03-R4')
     ctx.not_decided('equality of the gradual value with the one-shot Performance(passed_objects(i), state) value')
